@@ -6,6 +6,7 @@ import random
 from typing import Any, Dict, List, Optional, Tuple
 
 from harness.core import Component
+from harness.lib.c15_vals import val_of, val_id, obs, obs_model, gen_val, P as NFALSY
 
 # --------------------------------------------------------------------------
 # key pool: hashable keys are used as they are, unhashable ones go through
@@ -18,6 +19,7 @@ KEYPOOL: List[Any] = [
     {"x": 1, "y": [2, 3]}, {"y": [2, 3], "x": 1},   # same dict, different insertion order
     ("t", [1]), ["t", [1]],              # tuple holding a list is unhashable -> same JSON as the list
     1, True,                             # equal & same hash -> one dict key
+    0, "", None, False,                  # falsy keys (0 and False are one dict key); appended: older corpus indices stay valid
 ]
 
 
@@ -71,7 +73,7 @@ def ns_state(ns) -> List[List[int]]:
     out = []
     for k, ent in ns._d.items():
         ts = ent.ts
-        out.append([id_of_internal(k), int(ts) if float(ts) == int(ts) else ts, ent.value])
+        out.append([id_of_internal(k), int(ts) if float(ts) == int(ts) else ts, val_id(ent.value)])
     return out
 
 
@@ -105,7 +107,7 @@ def ttl_monitors(tag: str, max_: int, ttl: int, prev: List[List[int]], op: list,
     if kind == "get":
         hit, val = r
         if hit:
-            res.append((f"{tag}hit_only_if_fresh", fresh and val == ent[2],
+            res.append((f"{tag}hit_only_if_fresh", fresh and val == obs_model(ent[2]),
                         f"hit {val} at now={now} but previous entry {ent} ttl={ttl}"))
             res.append((f"{tag}hit_moves_to_mru", new == [e for e in prev if e[0] != kid] + [ent],
                         f"after hit on {kid}: {prev} -> {new}"))
@@ -173,7 +175,7 @@ class TtlLruComp(Component):
             r = rng.random()
             ki = rng.choice(kis)
             if r < 0.40:
-                ops.append([rng.choice(["set", "put"]), now, ki, rng.randrange(1000)])
+                ops.append([rng.choice(["set", "put"]), now, ki, gen_val(rng)])
             elif r < 0.75:
                 ops.append([rng.choice(["get", "get2"]), now, ki])
             elif r < 0.88:
@@ -219,17 +221,18 @@ class TtlLruComp(Component):
                 clock.now = _t(op[1], fl)
             try:
                 if k == "set":
-                    r = c.set(KEYPOOL[op[2]], op[3])
+                    r = c.set(KEYPOOL[op[2]], val_of(op[3]))     # value ids denote Python objects incl. None/0/""/False
                 elif k == "put":
-                    r = c.put(KEYPOOL[op[2]], op[3])
+                    r = c.put(KEYPOOL[op[2]], val_of(op[3]))
                 elif k == "get":
-                    r = c.get(KEYPOOL[op[2]])
+                    r = obs(c.get(KEYPOOL[op[2]]))
                 elif k == "get2":
-                    r = list(c.get2(KEYPOOL[op[2]]))
+                    h2, v2 = c.get2(KEYPOOL[op[2]])
+                    r = [h2, obs(v2)]
                 elif k == "contains":
                     r = KEYPOOL[op[2]] in c
                 elif k == "items":
-                    r = [[id_of_internal(kk), vv] for kk, vv in c.items()]
+                    r = [[id_of_internal(kk), val_id(vv)] for kk, vv in c.items()]
                 elif k == "invalidate":
                     r = c.invalidate()
                 else:
@@ -250,9 +253,14 @@ class TtlLruComp(Component):
 
     def canon_model(self, case, out):
         if isinstance(out, list):
-            for o in out:
+            for op, o in zip(case["ops"], out):
                 if isinstance(o, dict) and isinstance(o.get("s"), dict):
                     o["s"].pop("inv", None)
+                # return values conflate "stored None" with "no value"; the state / counters do not
+                if isinstance(o, dict) and op[0] == "get":
+                    o["r"] = obs_model(o.get("r"))
+                if isinstance(o, dict) and op[0] == "get2" and isinstance(o.get("r"), list) and len(o["r"]) == 2:
+                    o["r"] = [o["r"][0], obs_model(o["r"][1])]
         return out
 
     def monitor_requests(self, case, impl_out):
@@ -273,6 +281,7 @@ class TtlLruComp(Component):
         prev: List[List[int]] = []
         gets = 0
         evicted = 0
+        phits = 0
         for op, o, st in zip(case["ops"], impl_out["out"], impl_out["states"]):
             k = op[0]
             new = st["items"]
@@ -281,7 +290,10 @@ class TtlLruComp(Component):
             r = o["r"]
             if k in ("get", "get2"):
                 gets += 1
-                rr = (r is not None, r) if k == "get" else (r[0], r[1])
+                # legacy get() returns a stored None as None: whether it was a hit is read off the hit counter
+                rr = (o["s"]["hits"] > phits, r) if k == "get" else (r[0], r[1])
+                if k == "get":
+                    res.append(("legacy_get_value_iff_hit", rr[0] or r is None, f"get returned {r} but counted a miss"))
                 res += ttl_monitors("", max_, ttl, prev, ["get"], now, kid, rr, new)
             elif k in ("set", "put"):
                 res += ttl_monitors("", max_, ttl, prev, ["set", op[3]], now, kid, r, new)
@@ -298,18 +310,23 @@ class TtlLruComp(Component):
                         and s["n"] == len(new) == st["size"] == st["stats_size"],
                         f"stats {s} after {gets} gets / {evicted} evictions, {len(new)} entries"))
             prev = new
+            phits = s["hits"]
         return res
 
     def tags(self, case, impl_out):
         max_, ttl = self._eff(case["ctor"])
         t = set()
         prev: List[List[int]] = []
+        phits = 0
         for op, o, st in zip(case["ops"], impl_out["out"], impl_out["states"]):
             new = st["items"]
             if op[0] in ("get", "get2"):
-                hit = (o["r"] is not None) if op[0] == "get" else o["r"][0]
+                hit = o["s"]["hits"] > phits
+                phits = o["s"]["hits"]
                 if hit:
                     t.add("hit")
+                    if any(e[0] == KEY_ID[op[2]] and 0 <= e[2] < NFALSY for e in prev):
+                        t.add("falsy_value_hit")
                 elif any(e[0] == KEY_ID[op[2]] for e in prev):
                     t.add("expired_on_get")
             if op[0] in ("set", "put"):
@@ -355,7 +372,7 @@ class TtlMgrComp(Component):
             r = rng.random()
             ns = rng.randrange(nns)
             if r < 0.45:
-                ops.append(["set", ns, now, rng.choice(kis), rng.randrange(1000)])
+                ops.append(["set", ns, now, rng.choice(kis), gen_val(rng)])
             elif r < 0.88:
                 ops.append(["get", ns, now, rng.choice(kis)])
             elif r < 0.96:
@@ -394,10 +411,11 @@ class TtlMgrComp(Component):
             try:
                 if k == "set":
                     clock.now = _t(op[2], fl)
-                    r = m.set(NSPOOL[op[1]], KEYPOOL[op[3]], op[4])
+                    r = m.set(NSPOOL[op[1]], KEYPOOL[op[3]], val_of(op[4]))
                 elif k == "get":
                     clock.now = _t(op[2], fl)
-                    r = list(m.get(NSPOOL[op[1]], KEYPOOL[op[3]]))
+                    h2, v2 = m.get(NSPOOL[op[1]], KEYPOOL[op[3]])
+                    r = [h2, obs(v2)]
                 elif k == "inv_ns":
                     r = m.invalidate_namespace(NSPOOL[op[1]])
                 else:
@@ -427,9 +445,11 @@ class TtlMgrComp(Component):
 
     def canon_model(self, case, out):
         if isinstance(out, list):
-            for o in out:
+            for op, o in zip(case["ops"], out):
                 if isinstance(o, dict) and isinstance(o.get("s"), dict):
                     o["s"].pop("inv", None)
+                if isinstance(o, dict) and op[0] == "get" and isinstance(o.get("r"), list) and len(o["r"]) == 2:
+                    o["r"] = [o["r"][0], obs_model(o["r"][1])]
         return out
 
     def monitor_requests(self, case, impl_out):
@@ -493,6 +513,8 @@ class TtlMgrComp(Component):
             if op[0] == "get":
                 if o["r"][0]:
                     t.add("hit")
+                    if any(e[0] == KEY_ID[op[3]] and 0 <= e[2] < NFALSY for e in prev.get(op[1], [])):
+                        t.add("falsy_value_hit")
                 elif any(e[0] == KEY_ID[op[3]] for e in prev.get(op[1], [])):
                     t.add("expired_on_get")
             if op[0] == "set" and o["r"] is None and \
@@ -553,7 +575,7 @@ class TtlLruExhaustive(TtlLruComp):
             kind, key = self.OPS[d % len(self.OPS)]
             now += self.ADV[d // len(self.OPS)]
             if kind == "set":
-                ops.append(["set", now, key, 100 + n])
+                ops.append(["set", now, key, n % NFALSY if (n + key) % 2 == 0 else 100 + n])   # None/0/""/False… and integers
             elif kind == "items":
                 ops.append(["items", now])
             else:
